@@ -232,7 +232,7 @@ def inline_helpers(repo, body, covered, self_name, log, depth=0, stack=()):
                 inner = hb
             binds += ''.join('let %s = %s__h; ' % (p, p) for p in d['params'])
             inner = inline_helpers(repo, inner, covered, name, log, depth + 1, stack + (d['key'],))
-            body = body[:call_start] + '{ ' + binds + inner + ' }' + body[call_end:]
+            body = body[:call_start] + '/*R19<*/({ ' + binds + inner + ' })/*R19>*/' + body[call_end:]
             log.append('R19')
             changed = True
             tail = ex.tail_expr_span(body)
